@@ -233,6 +233,40 @@ def _wire(chk):
     chk.check("xeofs.single.eof.EOF._fit_algorithm" in reach, "WIRE.hilbert.fit", fa, None,
               construct="HilbertEOF._fit_algorithm -> EOF._fit_algorithm", why="HilbertEOF no longer fits through EOF._fit_algorithm")
     _extended(chk)
+    _hilbert_pad(chk)
+
+
+def _hilbert_pad(chk):
+    """the analytic signal is that of the data: the exponential extension that is added before the Hilbert transform is
+    cut off again afterwards, under the same condition, and the cut keeps the middle third [n, 2n)"""
+    pm = chk.pm
+    fn = pm.func("xeofs.utils.hilbert_transform._hilbert_transform_with_padding") if "xeofs.utils.hilbert_transform._hilbert_transform_with_padding" in pm.functions else None
+    if fn is None:
+        mod = pm.modules.get("xeofs.utils.hilbert_transform")
+        chk.require(mod is not None, "xeofs/utils/hilbert_transform.py vanished")
+        cands = [f for f in mod.functions.values() if any(isinstance(c, ast.Call) and (dotted(c.func) or "").split(".")[-1] == "_pad_exp" for c in walk_no_nested(f.node))]
+        chk.require(len(cands) == 1, "hilbert_transform: the function that pads and transforms vanished")
+        fn = cands[0]
+    ff = FuncFacts.of(fn)
+    from .common import atomic_conditions
+    pads = [c for c in ff.calls() if (dotted(c.func) or "").split(".")[-1] == "_pad_exp"]
+    hil = [c for c in ff.calls() if (dotted(c.func) or "").split(".")[-1] == "hilbert"]
+    cuts = [n for n in walk_no_nested(fn.node) if isinstance(n, ast.Subscript) and isinstance(n.slice, ast.Slice) and n.slice.lower is not None and n.slice.upper is not None
+            and isinstance(n.ctx, ast.Load)]
+    ok = len(pads) == 1 and len(hil) == 1 and len(cuts) == 1
+    why = f"padding / transform / cut sites: {len(pads)} / {len(hil)} / {len(cuts)}"
+    if ok:
+        cond = lambda n: {(norm(t), pol) for t, pol in atomic_conditions(ff, n)}
+        same = cond(pads[0]) == cond(cuts[0]) and bool(cond(pads[0]))
+        pn, hn, cn = ff.cfg.node_for(pads[0]), ff.cfg.node_for(hil[0]), ff.cfg.node_for(cuts[0])
+        order = ff.cfg.path_exists_avoiding(pn, hn, set()) and ff.cfg.path_exists_avoiding(hn, cn, set())
+        lo, hi = norm(cuts[0].slice.lower), norm(cuts[0].slice.upper).replace(" ", "")
+        middle = hi in (f"2*{lo}", f"{lo}*2", f"{lo}+{lo}")
+        fed = any(p.atom.kind == "call" and p.atom.node is pads[0] or any(o.node is pads[0] for o in p.ops) for a in hil[0].args[:1] for p in ff.paths(a, spine_only=True))
+        ok = same and order and middle and fed
+        why = f"same condition: {same}; pad -> transform -> cut: {order}; cut keeps [n, 2n): {middle}; transform receives the padded series: {fed}"
+    chk.check(ok, "WIRE.hilbert.pad", fn, cuts[0] if cuts else fn.node, construct="pad (exp) -> hilbert -> cut [n, 2n) under the same condition",
+              why="the padding added before the Hilbert transform is not removed consistently (" + why + "): the analytic signal belongs to another series than the data")
 
 
 def _extended(chk):
